@@ -27,7 +27,8 @@ CONSTANTS GenLen, Pipes, RejW
 Proj == [vis |-> [k \in TKeys |-> VisibleRoot(k)], app |-> roots,
          rc |-> nrc, kids |-> nkids, x |-> [x \in XKeys |-> VisibleX(x)],
          entries |-> Entries, ideal |-> ideal, idealX |-> idealX, qlen |-> Len(queue),
-         conflict |-> conflict, corrupt |-> corrupt, quiescent |-> Quiescent, wlocked |-> WLocked]
+         conflict |-> conflict, corrupt |-> corrupt, quiescent |-> Quiescent, wlocked |-> WLocked,
+         leaked |-> leaked]
 
 W(p) == RandomElement({j \in 1..100 : ncommits >= 0}) <= p
 
@@ -35,7 +36,8 @@ W(p) == RandomElement({j \in 1..100 : ncommits >= 0}) <= p
 \* transactions the database must reject without a trace
 Silent(rec) == hist' = Append(hist, rec) /\
                UNCHANGED <<roots, nrc, nkids, xs, covlT, covlX, queue, inflight, toDeref, locked, snap,
-                           nextId, nextCid, ncommits, nlocks, ideal, idealX, conflictT, conflictX, corrupt>>
+                           nextId, nextCid, ncommits, nlocks, ideal, idealX, conflictT, conflictX, corrupt,
+                           hdrMark, leaked, ncrash>>
 Pipe == inflight = <<>> /\ \E w \in Pipes : Silent([a |-> "Pipe", w |-> w])
 Restart == Quiescent /\ locked = {} /\ Silent([a |-> "Restart"])
 RejectWide == \E k \in TKeys : ideal[k].rc = 0 /\ k \notin locked /\ VisibleRoot(k).rc = 0 /\
@@ -55,7 +57,7 @@ GenNext ==
        \/ Idle
        \/ (W(40) /\ \E k \in TKeys : Lock(k))
        \/ (W(40) /\ \E k \in TKeys : Unlock(k))
-       \/ Defer \/ Process \/ Pop \/ Apply
+       \/ Defer \/ Process \/ Pop \/ Apply \/ (W(12) /\ Crash)
        \/ (W(30) /\ Pipe) \/ (W(15) /\ Restart) \/ (W(RejW) /\ RejectWide) \/ (W(RejW) /\ RejectOther)
     /\ obs' = Append(obs, Proj')
 
